@@ -151,6 +151,6 @@ theorem drift_deleteKey (s : State) (i : Nat) (k : Bytes) (hdb : s.hasDb i = tru
   simp only [entrySize]
   omega
 
-theorem memFn_empty : memFn ⟨[], 0⟩ = 0 := rfl
+theorem memFn_empty : memFn { dbs := [], mem := 0 } = 0 := rfl
 
 end Sugar
